@@ -226,10 +226,10 @@ class Gen:
         """Returns (bytes, events, info).  info: cc, enc (response encryption requested)."""
         a = self.P["areas"][str(cc)]
         F = dict(self.P["frames"]["Command"]["fields"])
-        if decrypt and not (sessions and self.can_encrypt(a["command_params"])):
-            decrypt = False
         if not sessions:
-            encrypt = False
+            decrypt = encrypt = False
+        # a session may request encryption although the first parameter is not a sized buffer: the area keeps its plain layout
+        opaque = bool(decrypt and self.can_encrypt(a["command_params"]))
         tag = 0x8002 if (sessions or session_tag) else 0x8001
         hb, hev = self.build(a["command_handles"], path + (R.seg("handles"),))
         body, bev = hb, hev
@@ -239,7 +239,7 @@ class Gen:
             ab, aev = self.prim(F["authSize"], path + (R.seg("authSize"),), len(sb))
             body += ab + sb
             bev = bev + aev + sev
-        pb, pev = self.build(a["command_params"], path + (R.seg("parameters"),), enc=decrypt)
+        pb, pev = self.build(a["command_params"], path + (R.seg("parameters"),), enc=opaque)
         body += pb
         bev = bev + pev
         total = 10 + len(body)
@@ -267,11 +267,12 @@ class Gen:
                 (path + (R.seg("responseCode"),), F["responseCode"], rc),
             ]
             return head, evs, dict(cc=cc, enc=None, rc=rc)
-        if enc and not (sessions and self.can_encrypt(a["response_params"])):
+        if not sessions:
             enc = False
+        opaque = bool(enc and self.can_encrypt(a["response_params"]))
         t = 0x8002 if (sessions or session_tag) else 0x8001
         hb, hev = self.build(a["response_handles"], path + (R.seg("handles"),))
-        pb, pev = self.build(a["response_params"], path + (R.seg("parameters"),), enc=enc)
+        pb, pev = self.build(a["response_params"], path + (R.seg("parameters"),), enc=opaque)
         body, bev = hb, hev
         if t == 0x8002:
             sb, sev = self.sessions_response(path + (R.seg("authorizationArea"),), sessions, encrypt=enc)
@@ -300,11 +301,6 @@ class Gen:
         else:
             # a successful response to a command with sessions carries sessions
             want_enc = ci["enc"]
-            can = self.can_encrypt(self.P["areas"][str(cc)]["response_params"])
-            if want_enc and not can:
-                # the command may not request response encryption for such a command: regenerate without
-                cb, cev, ci = self.command(cc, c.get("sessions", 0), c.get("decrypt", False), False, session_tag=c.get("session_tag", False))
-                want_enc = False
             rb, rev, ri = self.response(cc, sessions=c.get("sessions", 0), enc=want_enc, session_tag=c.get("session_tag", False))
         return (cb, cev, ci), (rb, rev, ri)
 
